@@ -1,5 +1,6 @@
 //! C11: nearest-neighbour resizing picks the source pixel under each destination centre.
 use firv::exec::*;
+use firv::fr;
 use firv::gen::*;
 use firv::px::*;
 use firv::refmodel::nearest_index;
@@ -112,9 +113,33 @@ fn exec<P: Px>(c: &RCase, stats: &mut Stats, viols: &mut Vec<Viol>) {
     }
     let sbits = P::bits_of(&src);
     let nc = P::NC;
+    // a sliding window on one long-lived Resizer: the same geometry with the crop box moved by one pixel, before the
+    // case itself (what a table cached between calls and keyed on too little would get wrong)
+    let mut warm = fr::Resizer::new();
+    let slide = {
+        let b = [l, t, cw, ch];
+        let mut moved = None;
+        if b[0] + b[2] + 1.0 <= sw as f64 {
+            moved = Some([b[0] + 1.0, b[1], b[2], b[3]]);
+        } else if b[0] >= 1.0 {
+            moved = Some([b[0] - 1.0, b[1], b[2], b[3]]);
+        }
+        moved
+    };
+    if let Some(m) = slide {
+        let mut c2 = c.clone();
+        c2.crop = Crop::Box(m);
+        let o2 = c2.options();
+        unsafe { warm.set_cpu_extensions(Ext::Avx2.to_fr()) };
+        let _ = resize_with::<P>(&mut warm, &src, c.sw, c.sh, c.dw, c.dh, &o2);
+        stats.count("sliding_window_pairs", 1);
+    }
     // each case through the specialised row stepping of TypedImageRef and through the default one (TypedImage source)
-    for (ext, typed_src) in [(Ext::None, false), (Ext::Sse4, false), (Ext::Avx2, false), (Ext::Avx2, true)] {
-        let res = if typed_src { resize_vec_typed_src::<P>(&src, c.sw, c.sh, c.dw, c.dh, &opts, ext) } else { resize_vec::<P>(&src, c.sw, c.sh, c.dw, c.dh, &opts, ext) };
+    for (k, (ext, typed_src)) in [(Ext::Avx2, false), (Ext::None, false), (Ext::Sse4, false), (Ext::Avx2, false), (Ext::Avx2, true)].into_iter().enumerate() {
+        let res = if k == 0 {
+            // the case on the Resizer that has just served the moved crop box
+            resize_with::<P>(&mut warm, &src, c.sw, c.sh, c.dw, c.dh, &opts)
+        } else if typed_src { resize_vec_typed_src::<P>(&src, c.sw, c.sh, c.dw, c.dh, &opts, ext) } else { resize_vec::<P>(&src, c.sw, c.sh, c.dw, c.dh, &opts, ext) };
         let out = match res {
             Ok(o) => o,
             Err(e) => {
